@@ -419,7 +419,11 @@ CHECKS["C11"] = dict(
           "a SET on the untouched node must succeed within 10 s. part clusternodes-socket: the genuine CLUSTER NODES text of the simulated "
           "cluster with 1..3 edited tokens (slot tokens at and beyond the boundary 16383/16384/16385, reversed/huge/negative ranges, "
           "unknown master ids, broken addresses) is served by every node for three refresh periods through the real refresh loop; the "
-          "proxy must stay alive and serve again within 10 s after the genuine text is back. A crash of the test process is attributed to the case being executed and "
+          "proxy must stay alive and serve again within 10 s after the genuine text is back. part storm: for 20..400 ms a node answers EVERY request "
+          "- the proxy's own ASKING, READONLY and CLUSTER NODES included - with a well-formed redirection (ASK or MOVED to itself, ASK to the other "
+          "node, MOVED/ASK ping-pong between both nodes) while 1..4 clients pipeline 1..200 requests for its keys, then behaves again (optionally "
+          "dropping its connections): afterwards a fresh connection gets +PONG, the other backend serves a SET within 10 s, the heap grew by "
+          "less than 512 MiB and Stop returns within 20 s. A crash of the test process is attributed to the case being executed and "
           "is a violation. Non-trivial: the input is not valid RESP / not a well-formed reply and differs from every corpus constant. "
           "Distinct by input bytes resp. canonical JSON."),
     assumptions=["heap amplification by wide AND deep arrays (*1048576 nested d times costs d x 64 MiB) is not explored: the statement's memory bound is decided for stack depth and for single over-limit lengths only",
@@ -434,6 +438,7 @@ CHECKS["C11"] = dict(
         dict(name="clusternodes-socket", test="TestHostileClusterNodes", kind="rapid", checks={"quick": 20, "thorough": 800}, shards=16, timeout={"quick": 900, "thorough": 3400}, gomaxprocs=4, crash_is_violation=True),
         dict(name="fuzz-decoder", test="FuzzDecoder", kind="fuzz", fuzz_part="decoder", tiers=["thorough"], fuzztime="150s", timeout=400, exclusive=True),
         dict(name="fuzz-clusternodes", test="FuzzClusterNodes", kind="fuzz", fuzz_part="clusternodes", tiers=["thorough"], fuzztime="120s", timeout=400, exclusive=True),
+        dict(name="storm", test="TestRedirectionStorm", kind="rapid", checks={"quick": 12, "thorough": 400}, shards=16, timeout={"quick": 900, "thorough": 3400}, gomaxprocs=4, crash_is_violation=True),
         dict(name="sockets", test="TestHostileSockets", kind="rapid", checks={"quick": 40, "thorough": 1500}, shards=16, timeout={"quick": 900, "thorough": 3400}, gomaxprocs=4, crash_is_violation=True),
     ],
 )
@@ -495,13 +500,19 @@ CHECKS["C09"] = dict(
           "client close is noticed asynchronously), after StopListen new connects are not served while every established connection still "
           "is. part arrivals: 5..25 trials per case of Stop called 0..3 ms after 1..8 dialer goroutines started connecting non-stop "
           "(connections left idle, 0..30 established before): Stop returns within 10 s and every connection the clients ever got "
-          "established sees EOF/reset within 5 s. Non-trivial: the stop is placed before the bind completed, or with >= 1 connection open, or with a non-responsive backend; "
+          "established sees EOF/reset within 5 s. part redirect: a Redis service that only knows node 0; the slot of the test key is moved (MOVED) or "
+          "half-migrated (ASK) to node 1, 1..3 connections pipeline 1..8 GETs; the first request on its way to node 1 is held at the pause point "
+          "between the upstream's quit check and the connection lookup, Stop is called 0..2000 us after the hit and the request is released "
+          "0..60 ms later; variants without the pause point and with node 1 accepting only after ~1 s (accept queue full: the connect is "
+          "pending while Stop sweeps the connections). Oracle: Stop returns within 10 s, every client connection is closed, no backend "
+          "connection (also none that completes after Stop) and no service goroutine remains. Non-trivial: the stop is placed before the bind completed, or with >= 1 connection open, or with a non-responsive backend; "
           "limit: more simultaneous attempts than L, or a drain. Distinct by canonical JSON."),
     assumptions=["'not served' after Stop means connect refused or the connection closed without data (the port may be rebound by others)",
                  "process-wide singletons (the shared TCP checker loop) are part of the goroutine baseline"],
     parts=[
         dict(name="stop", test="TestStop", kind="rapid", checks={"quick": 40, "thorough": 2500}, shards=16, timeout={"quick": 900, "thorough": 3400}, shrinktime="60s", gomaxprocs=4, crash_is_violation=True),
         dict(name="limit", test="TestLimitAndDrain", kind="rapid", checks={"quick": 40, "thorough": 2500}, shards=16, timeout={"quick": 900, "thorough": 3400}, shrinktime="60s", gomaxprocs=4, crash_is_violation=True),
+        dict(name="redirect", test="TestStopDuringRedirect", kind="rapid", checks={"quick": 10, "thorough": 400}, shards=16, timeout={"quick": 900, "thorough": 3400}, shrinktime="60s", gomaxprocs=4, crash_is_violation=True),
         dict(name="arrivals", test="TestStopUnderArrivals", kind="rapid", checks={"quick": 6, "thorough": 300}, shards=16, timeout={"quick": 900, "thorough": 3400}, shrinktime="20s", gomaxprocs=4, crash_is_violation=True),
     ],
 )
